@@ -84,6 +84,11 @@ HistChecks(ln, e) ==
    Chk(~(isR /\ Stream(tp)) \/ ln.gl <= 0, "C02.lost_at_close", 0, ln.gl),
    \* C06: ... and that end is reported as the peer's close (0), not as a failure of the connection
    Chk(~(isR /\ Stream(tp) /\ ln.gl >= 0) \/ ln.ret = 0, "C06.close_as_error", 0, ln.err),
+   \* C06 / C01: the end of the stream is shown only when the peer has closed (pcl = -1: a raw peer, not judged here); a 0
+   \* from xcm_receive while the peer is still there ends the delivery of what the peer goes on sending
+   Chk(~(ln.op \in {"r", "br1"} /\ ln.ret = 0 /\ ln.cap > 0 /\ ln.pcl = 0), "C06.spurious_eof", "peer still open", ln.pcl),
+   Chk(~(ln.op \in {"r", "br1"} /\ ln.ret = 0 /\ ln.cap > 0 /\ ln.pcl = 0 /\ msgT), "C01.spurious_eof", "peer still open", ln.pcl),
+   Chk(~(ln.op \in {"r", "br1"} /\ ln.ret = 0 /\ ln.cap > 0 /\ ln.pcl = 0 /\ ~msgT), "C02.spurious_eof", "peer still open", ln.pcl),
    \* C05: no waiting primitive inside a call on a non-blocking socket
    Chk(ln.w = 0, "C05.wait", 0, ln.w),
    \* C16: one stable descriptor, only ever readable
@@ -119,6 +124,8 @@ HistChecks(ln, e) ==
    \* (judged only when no record was captured before this call: what OpenSSL does when a captured record is retried with
    \* another buffer belongs to the recorded finding)
    Chk(~(isS /\ tp = "btls" /\ ln.ret = -1 /\ ln.err = EAGAIN /\ ~h.wref) \/ ln.k[1] <= TlsRecMax + 512, "C02.refused_written", TlsRecMax + 512, ln.k[1]),
+   \* ... and a send that failed has left a trace beyond that (C03)
+   Chk(~(isS /\ tp = "btls" /\ ln.ret = -1 /\ ln.err = EAGAIN /\ ~h.wref) \/ ln.k[1] <= TlsRecMax + 512, "C03.refused_written", TlsRecMax + 512, ln.k[1]),
    \* C07: never an oversized or empty delivery
    Chk(~(isR /\ msgT) \/ ln.ret <= MaxMsg, "C07.oversize", MaxMsg, ln.ret),
    \* C06: terminal conditions stick
